@@ -283,3 +283,79 @@ Print Assumptions C11_xrun_plain.
 Print Assumptions C11_xasked_exactly.
 Print Assumptions C11_xomitted_block_silent.
 Print Assumptions C11_xunasked_block_update.
+
+(* ---- run-level forms for worlds WITHOUT leader_stable / answers_match_asks (2026-10-02, appended; they lift
+   C11_xasked_exactly and the update side of xcycle to every cycle of every run of xrun by induction over the cycle
+   list).  `l` is any list of (metadata ticker fired?, xenv); `en` any cycle of xtrace init_state None l (xrun, what
+   the driver prints for the sc3 cases, is xtrace without the ghosts: C11_xrun_is_xtrace); xghost_now en = the last
+   completely refreshed environment (this cycle's own when its refresh completed). *)
+
+(* (ii) every request of every cycle goes to the broker Leader named at the request site of THAT cycle, for a
+   partition that had a leader in the last complete metadata read -- and only those are asked; never twice *)
+Theorem C11_xasked_run : forall l en,
+  In en (xtrace init_state None l) ->
+  (forall b t p, In (b, t, p) (co_asks (xn_out en)) <->
+     exists ge ts ps, xghost_now en = Some ge /\ e_topics ge = Good ts /\ In t ts /\ e_parts ge t = Good ps
+       /\ In p ps /\ has_leader ge t p = true /\ x_leader_req (xn_env en) t p = Good b)
+  /\ NoDup (co_asks (xn_out en))
+  /\ (forall b b' t p, In (b, t, p) (co_asks (xn_out en)) -> In (b', t, p) (co_asks (xn_out en)) -> b = b').
+Proof. exact xasked_run. Qed.
+
+(* (i) every broker-offset update emitted anywhere in the run carries the first offset of a successful block
+   ((0, off :: _)) of a response of THAT cycle for that topic/partition -- an asked block the broker did not omit
+   (answered_asked) or a block nobody asked for in a response that arrived (answered_unasked) -- and the partition
+   count of the last complete metadata read (0 when that read did not list the topic); and every such block yields
+   its update.  No update without an answer, none for an error block, none invented or stale. *)
+Theorem C11_xupdate_run : forall l en,
+  In en (xtrace init_state None l) ->
+  forall t p off c, In (t, p, off, c) (co_updates (xn_out en)) <->
+    (answered_asked (xn_env en) (xn_out en) t p off \/ answered_unasked (xn_env en) (xn_out en) t p off)
+    /\ ((exists ge ts ps, xghost_now en = Some ge /\ e_topics ge = Good ts /\ In t ts /\ e_parts ge t = Good ps
+          /\ c = Z.of_nat (length ps))
+        \/ (ghost_find (xghost_now en) t = None /\ c = 0)).
+Proof. exact xupdate_run. Qed.
+
+Theorem C11_xno_update_without_answer : forall l en t p,
+  In en (xtrace init_state None l) ->
+  (forall b, In (b, t, p) (co_asks (xn_out en)) ->
+     x_omit (xn_env en) b t p = true
+     \/ e_answer (x_env (xn_env en)) b = Fail
+     \/ exists ans, e_answer (x_env (xn_env en)) b = Good ans /\ fst (ans t p) <> 0) ->
+  (forall b, ~ exists err offs, In (t, p, (err, offs)) (x_extra (xn_env en) b)) ->
+  forall off c, ~ In (t, p, off, c) (co_updates (xn_out en)).
+Proof. exact xno_update_without_answer. Qed.
+
+Theorem C11_xrun_is_xtrace : forall l st g,
+  exists tail,
+    xrun st l = map (fun en => (fetchMetadata (xn_pre en), Done (xn_out en))) (xtrace st g l) ++ tail
+    /\ (tail = [] \/ exists f, tail = [(f, Crash)]).
+Proof. exact xrun_is_xtrace. Qed.
+
+Theorem C11_xtrace_plain : forall l st g,
+  map (fun en => (xn_pre en, xn_ghost en, xn_out en)) (xtrace st g (map (fun x => (fst x, plain (snd x))) l))
+  = map (fun en => (en_pre en, en_ghost en, en_out en)) (trace st g l).
+Proof. exact xtrace_plain. Qed.
+
+(* non-vacuity: a two-cycle run every world of which violates BOTH hypotheses (Leader fails / names another broker at
+   the request site; a broker adds an unasked block / omits an asked one), does not crash, asks and records *)
+Example C11_xr_run_violates_both :
+  forall x, In x (map snd xr_run) -> ~ leader_stable x /\ ~ answers_match_asks x.
+Proof. exact xr_run_violates_both. Qed.
+
+Example C11_xr_run_ex :
+  map (fun en => (fetchMetadata (xn_pre en), fetchMetadata (co_state (xn_out en)), co_asks (xn_out en), co_updates (xn_out en)))
+      (xtrace init_state None xr_run)
+  = [ (true, true, [(1, 1, 0)], [(1, 0, 10, 2); (9, 0, 77, 0)]);
+      (true, false, [(1, 1, 0); (2, 1, 1)], [(1, 1, 20, 2); (1, 50, 88, 2)]) ].
+Proof. exact xr_run_ex. Qed.
+
+Example C11_xr_run_is_xrun :
+  xrun init_state xr_run
+  = map (fun en => (fetchMetadata (xn_pre en), Done (xn_out en))) (xtrace init_state None xr_run).
+Proof. exact xr_run_is_xrun. Qed.
+
+Print Assumptions C11_xasked_run.
+Print Assumptions C11_xupdate_run.
+Print Assumptions C11_xno_update_without_answer.
+Print Assumptions C11_xrun_is_xtrace.
+Print Assumptions C11_xtrace_plain.
